@@ -1,5 +1,5 @@
 (* Property C18 - options act only on their own aspect, in any order, on every Evaluate. Statements only (proofs: Api.v, ApiMore.v, C18b.v, Glue.v, C05.v). *)
-From Coq Require Import List String ZArith NArith Bool Permutation. From Bexpr Require Import Base Strconv Ast Univ Eval Api ApiMore C05 C18b Glue. Import ListNotations.
+From Coq Require Import List String ZArith NArith Bool Permutation. From Bexpr Require Import Base Strconv Ast Univ Eval Api ApiMore C05 C18b Unicode Peg Budget. Import ListNotations.
 
 Theorem c18_commute :
   forall (l : list opt) (x y : opt) (r : list opt), kind_of_opt x <> kind_of_opt y -> get_opts (l ++ x :: y :: r) = get_opts (l ++ y :: x :: r).
@@ -36,11 +36,13 @@ Theorem c18_neutral_budget_zero :
 Proof. exact Api.c18_neutral_budget_zero. Qed.
 Print Assumptions c18_neutral_budget_zero.
 
+(* a budget at or above the parse's own step count changes nothing - for ANY grammar table, hence for the shipped one
+   (the instance for the table regenerated from grammar.go is c11_budget in P_C11.v) *)
 Theorem c18_neutral_budget_large :
-  forall (fuel : nat) (src : string) (N0 n : N),
-  Budget.pcount (Peg.parse GoGrammar.go_grammar None Actions.action_sem Actions.pred_sem fuel src) = Some N0 ->
-  (N0 <= n)%N -> the_parse (Some n) fuel src = the_parse None fuel src.
-Proof. exact Glue.c18_neutral_budget_large. Qed.
+  forall (g : list Peg.rule) asem psem (fuel : nat) (input : string) (N0 n : N),
+  Budget.pcount (Peg.parse g None asem psem fuel input) = Some N0 -> (N0 <= n)%N ->
+  Peg.parse g (Some n) asem psem fuel input = Peg.parse g None asem psem fuel input.
+Proof. intros g asem psem fuel input N0 n Hc Hn. destruct (Budget.parse_budget g asem psem fuel input N0 Hc) as [H _]. exact (H n Hn). Qed.
 Print Assumptions c18_neutral_budget_large.
 
 Theorem c18_default_tag :
@@ -79,11 +81,11 @@ Print Assumptions c18_hook_nil_is_error.
 
 
 (* ---- ties to the constant tables regenerated from the Go sources (tools/gotables -> GoTables.v) ---- *)
-From Coq Require Import List String ZArith NArith Bool. From Bexpr Require Import Base Strconv Ast Univ Eval Api Dump GoTables TableTie. Import ListNotations.
+From Coq Require Import List String ZArith NArith Bool. From Bexpr Require Import Base Strconv Ast Univ Eval Api Dump GoTables TableTie TieDefaults. Import ListNotations.
 
 Theorem default_options :
   go_default_options = [("withMaxExpressions", "0"); ("withTagName", "bexpr"); ("withUnknown", "nil")] /\
   o_max default_opts = 0%N /\ o_tag default_opts = "bexpr" /\ o_unknown default_opts = None.
-Proof. exact TableTie.default_options. Qed.
+Proof. exact TieDefaults.default_options. Qed.
 Print Assumptions default_options.
 
